@@ -84,9 +84,13 @@ struct xv_conn_s {
 #define xv_unregistered xv_conn.unregistered
 /* order of the steps of one attempt: descriptor on which the options snapshot was applied / the local address was bound
  * since the attempt began (-1: none); reset by every event that ends an attempt */
-struct xv_pre_s { int eff_fd, bind_fd; };
+struct xv_pre_s { int eff_fd, bind_fd;
+    _Bool top;   /* proof device of job track_connect_next (see contracts/dnstc.h, XV_TCN_I0): set by the harness, cleared by the first
+                    tcp_opts_effectuate, i.e. before any recursive call */
+};
 #define xv_pre_eff_fd xv_pre.eff_fd
 #define xv_pre_bind_fd xv_pre.bind_fd
+#define xv_tcn_top xv_pre.top
 /* other modules, last call */
 struct xv_eff_s { unsigned n; int fd, rc; const void *opts; };                      /* tcp_opts_effectuate                */
 #define xv_eff_n xv_eff.n
